@@ -26,7 +26,8 @@ def run(ctx):
         if r.violated:
             raise vlib.Infra("TLC: %s violated in MultiFrac.tla (%s)" % (r.violated, cfg))
         vlib.require_tlc_ok(r, "MultiFrac " + cfg)
-        mism, summ, _ = vlib.run_cases(ctx, drv, ["-workers", str(vlib.NCPU)], cf, label=label, timeout=3400)
+        mism, summ, _ = vlib.run_cases(ctx, drv, ["-workers", str(vlib.NCPU)], cf, label=label, timeout=3400,
+                                       chunk=40000 if label == "store" else 800)   # proxy cases open up to 4 stores each: bounded descriptors per process
         for k in tot:
             tot[k] += summ[k]
         for m in mism:
